@@ -5,7 +5,7 @@ tie   : T-gen (GrowCapacity regenerated + validated) and T-cor (extracted model 
 oracle: std::vector<long long> twin inside the harness + the reserve/no-allocation claim evaluated on the real code."""
 import os, re
 
-GEN = ['gen_grow.json', 'gen_guards_shifter.json', 'gen_guards_array.json', 'gen_guards_seg.json']
+GEN = ['gen_grow.json', 'gen_guards_shifter.json', 'gen_guards_array.json', 'gen_guards_seg.json', 'gen_shift_loops.json', 'gen_indexof.json']
 ELEMS = ['pod', 'ntm', 'cpy', 'smh', 'str']
 # container configs: (name, ic / logInitialItemCount)
 def configs(elem):
@@ -326,6 +326,15 @@ def guard_cases(ctx, scale):
             out.append('gd rb %d %d 0 %d' % (n, cap, i)); out.append('gd segrb %d 0 0 %d' % (n, i))
             out.append('gd idx %d %d %d 0' % (n, cap, i))
         out.append('gd abn %d %d 0 0' % (n, cap))
+        for i in range(0, n + 2):
+            out.append('gd indexof %d %d %d 0' % (n, cap, i))
+        # the generated LOOPS: every index, counts 0..free+1, item = every element (aliased) or an external object
+        for i in range(0, n + 2):
+            for c in range(0, n + 2):
+                out.append('gl remove %d %d %d %d 0' % (n, cap, i, c))
+            for c in range(0, cap - n + 2):
+                for ii in range(0, n + 1):
+                    out.append('gl insert %d %d %d %d %d' % (n, cap, i, c, ii))
     return out
 
 
